@@ -16,9 +16,10 @@ import StorageModel.Codec.ContextLemmas
   PersistContext setters of boltz/base.go in `StorageModel/Codec/*` (compared with the real code on
   every run by `bin/check C13`).  Hypotheses of the form `(… tb …).err = none` say "the write was
   not refused" (bbolt refuses empty / oversized keys and value-vs-bucket conflicts); `put_succeeds`
-  and the `example`s show they are satisfiable.  Float bit patterns and marshalled times are
-  opaque payloads: that `math.Float64frombits ∘ Float64bits` and `UnmarshalBinary ∘ MarshalBinary`
-  are identities (the latter up to the instant) is Go's, not proved here.
+  and the `example`s show they are satisfiable.  Float bit patterns are opaque payloads: that
+  `math.Float64frombits ∘ Float64bits` is the identity is Go's, not proved here.  Times carry their
+  representation and go through a transcription of Go 1.23's `MarshalBinary` / `UnmarshalBinary`
+  (compared with the real functions by the harness).
 -/
 namespace StorageModel.Properties.C13
 open StorageModel StorageModel.Codec
@@ -167,16 +168,173 @@ theorem bool_roundtrip (tb : TB) (name : Bytes) (b : Bool) (chk : Checker)
   rw [getTyped_ins_self]
   cases b <;> simp [fieldToBool, bytesToBool]
 
-/-- the marshalled UTC instant comes back byte for byte (so the time read compares equal as an
-    instant, given Go's `UnmarshalBinary ∘ MarshalBinary`). -/
-theorem time_roundtrip (tb : TB) (name p : Bytes) (chk : Checker) (hne : p ≠ [])
-    (hp : proceedWithSet tb name chk = true) (hok : (setTime tb name p chk).err = none) :
-    getTime (setTime tb name p chk).es name = some p := by
-  simp only [setTime, hp, if_true, setTyped_some typeTime_ne_nil] at hok ⊢
+/-! ### times
+
+A `time.Time` is modelled with its representation (`GoTime`: `sec()`, `nsec()`, the location as "UTC
+or a zone with this offset", a monotonic reading or not); `MarshalBinary` / `UnmarshalBinary` follow
+Go 1.23 (`Codec/TypedValue.lean`), `SetTime` / `SetTimeP` normalise with `UTC()` first. -/
+
+theorem setTime_eq (tb : TB) (name : Bytes) (t : GoTime) (chk : Checker) (hp : proceedWithSet tb name chk = true) :
+    setTime tb name t chk = tb.apply (bput tb.es name (typeTime :: timeFields 1 t (-1))) := by
+  simp only [setTime, hp, if_true, timePayload_eq, setTyped_some typeTime_ne_nil]
+
+/-- **a time is read back as the instant that was written**: whatever the representation handed to
+    `SetTime` (any zone offset - not a whole number of minutes, one minute west of UTC, beyond
+    ±18 h -, `Local`, a monotonic reading, the zero `Time`, any year), `GetTime` returns the same
+    `sec()` / `nsec()` in UTC. -/
+theorem time_roundtrip (tb : TB) (name : Bytes) (t : GoTime) (chk : Checker) (ht : t.valid)
+    (hp : proceedWithSet tb name chk = true) (hok : (setTime tb name t chk).err = none) :
+    getTime (setTime tb name t chk).es name = some t.utc := by
+  rw [setTime_eq tb name t chk hp] at hok ⊢
   rw [put_es hok]
   unfold getTime
   rw [getTyped_ins_self]
-  simp [fieldToDatetime, bytesToDatetime, hne]
+  simp [fieldToDatetime, bytesToDatetime, timeFields_ne_nil, unmarshal_utc_bytes t ht]
+
+/-- the same through `SetTimeP`; a nil pointer is read back as nil. -/
+theorem timeP_roundtrip (tb : TB) (name : Bytes) (t : Option GoTime) (chk : Checker) (ht : ∀ v, t = some v → v.valid)
+    (hp : proceedWithSet tb name chk = true) (hok : (setTimeP tb name t chk).err = none) :
+    getTime (setTimeP tb name t chk).es name = t.map GoTime.utc := by
+  cases t with
+  | some v =>
+    have e : setTimeP tb name (some v) chk = setTime tb name v chk := by
+      simp only [setTimeP, setTime]
+    rw [e] at hok ⊢
+    exact time_roundtrip tb name v chk (ht v rfl) hp hok
+  | none =>
+    have he : tb.err = none := by
+      have := hp
+      simp only [proceedWithSet, Bool.and_eq_true, Option.isNone_iff_eq_none] at this
+      exact this.1
+    simp only [setTimeP, hp, if_true, setNil_eq he] at hok ⊢
+    rw [put_es hok]
+    unfold getTime
+    rw [getTyped_ins_self]
+    simp [fieldToDatetime, bytesToDatetime]
+
+/-- **the representation is irrelevant**: two `time.Time` values that are the same instant - in
+    whatever zones, with or without monotonic reading - leave exactly the same bucket (same stored
+    bytes) and the same error holder behind, through `SetTime` and through `SetTimeP`; and when the
+    write is accepted both are read back as that instant. -/
+theorem time_roundtrip_representation_irrelevant (tb : TB) (name : Bytes) (t u : GoTime) (chk : Checker)
+    (h : t.sameInstant u) :
+    setTime tb name t chk = setTime tb name u chk ∧
+    setTimeP tb name (some t) chk = setTimeP tb name (some u) chk ∧
+    (t.valid → proceedWithSet tb name chk = true → (setTime tb name t chk).err = none →
+      ∃ r, getTime (setTime tb name u chk).es name = some r ∧ r.sameInstant t ∧ r.sameInstant u ∧
+        r.loc = .utc ∧ r.mono = false) := by
+  have hpay := timePayload_instant t u h
+  refine ⟨by simp only [setTime, hpay], by simp only [setTimeP, hpay], ?_⟩
+  intro ht hp hok
+  have e : setTime tb name u chk = setTime tb name t chk := by simp only [setTime, hpay]
+  rw [e, time_roundtrip tb name t chk ht hp hok]
+  exact ⟨t.utc, rfl, ⟨rfl, rfl⟩, ⟨h.1, h.2⟩, rfl, rfl⟩
+
+/-- **the write never fails on the zone**: because of the `UTC()` normalisation `SetTime` /
+    `SetTimeP` never put `MarshalBinary`'s error into the holder, and on a writable key of a bucket
+    without error the write is accepted - for EVERY time, although `MarshalBinary` itself refuses
+    the zones of `marshal_refuses_iff` (see `marshal_refuses_minute_west`). -/
+theorem time_write_never_fails_on_zone (tb : TB) (name : Bytes) (t : GoTime) (chk : Checker) :
+    ((setTime tb name t chk).err = some .timeMarshal → tb.err = some .timeMarshal) ∧
+    ((setTimeP tb name (some t) chk).err = some .timeMarshal → tb.err = some .timeMarshal) ∧
+    (Writable tb.es name → tb.err = none →
+      (setTime tb name t chk).err = none ∧ (setTimeP tb name (some t) chk).err = none) := by
+  have e : setTimeP tb name (some t) chk = setTime tb name t chk := by simp only [setTimeP, setTime]
+  have key : (setTime tb name t chk).err = some .timeMarshal → tb.err = some .timeMarshal := by
+    intro h
+    by_cases hp : proceedWithSet tb name chk = true
+    · rw [setTime_eq tb name t chk hp] at h
+      cases hb : bput tb.es name (typeTime :: timeFields 1 t (-1)) with
+      | ok es' => rw [hb] at h; simpa [TB.apply] using h
+      | error er =>
+        rw [hb] at h
+        have : er = .timeMarshal := by simpa [TB.apply] using h
+        subst this
+        unfold bput at hb
+        split at hb
+        · cases hb
+        · split at hb
+          · cases hb
+          · split at hb <;> cases hb
+    · simpa [setTime, hp] using h
+  refine ⟨key, by rw [e]; exact key, ?_⟩
+  intro hw he
+  rw [e]
+  have : (setTime tb name t chk).err = none := by
+    by_cases hp : proceedWithSet tb name chk = true
+    · rw [setTime_eq tb name t chk hp, bput_of_writable _ hw]; exact he
+    · simpa [setTime, hp] using he
+  exact ⟨this, this⟩
+
+/-- non-vacuity, and the situation of a write that skips the normalisation: 2021-03-04 05:06:07.000891011
+    in a zone 90 s west of UTC, with a monotonic reading - `MarshalBinary` on the value as given refuses
+    it; `SetTime` stores it, `GetTime` returns the instant in UTC; the same instant given in UTC leaves
+    the same bucket. -/
+example : marshalBinary { sec := 63750431167, nsec := 891011, loc := .zone (-90), mono := true } = .error .zoneOffset := by
+  rfl
+example :
+    let t : GoTime := { sec := 63750431167, nsec := 891011, loc := .zone (-90), mono := true }
+    t.valid ∧ (setTime { es := [] } [116] t none).err = none ∧
+      getTime (setTime { es := [] } [116] t none).es [116] = some { sec := 63750431167, nsec := 891011 } ∧
+      (setTime { es := [] } [116] t none).es = (setTime { es := [] } [116] { sec := 63750431167, nsec := 891011 } none).es := by
+  refine ⟨by decide, rfl, ?_, rfl⟩
+  rfl
+
+/-- what the normalisation protects from: `MarshalBinary` on the time as given refuses every zone
+    one minute west of UTC (-119 s … -60 s), at every instant. -/
+theorem marshal_refuses_minute_west (t : GoTime) (off : Int) (hl : t.loc = .zone off)
+    (h1 : -119 ≤ off) (h2 : off ≤ -60) : marshalBinary t = .error .zoneOffset :=
+  (marshal_refuses_iff t).mpr ⟨off, hl, Or.inl ⟨h1, h2⟩⟩
+
+/-- … and exactly which representations it refuses: a non-UTC location whose offset is -119 s … -60 s
+    or does not fit an int16 of minutes; never a UTC value. -/
+theorem marshal_refuses_exactly (t : GoTime) :
+    marshalBinary t = .error .zoneOffset ↔
+      ∃ off, t.loc = .zone off ∧ ((-119 ≤ off ∧ off ≤ -60) ∨ off ≤ -1966140 ∨ 1966080 ≤ off) :=
+  marshal_refuses_iff t
+
+/-- Go's own round trip, for every representation `MarshalBinary` accepts: the bytes are read back
+    as the same instant (so storing the time as given would preserve instants wherever it does
+    not refuse). -/
+theorem marshal_unmarshal_same_instant (t : GoTime) (p : Bytes) (ht : t.valid) (h : marshalBinary t = .ok p) :
+    ∃ u, unmarshalBinary p = .ok u ∧ u.sameInstant t :=
+  unmarshal_marshal_instant t p ht h
+
+/-- **inside maps and lists, at any depth**: `setMarshaled` / `PutMap` / `PutList` leave the same
+    tree or the same refusal for two values that differ only in how their times are represented,
+    and what is expected back is the same. -/
+theorem value_time_representation_irrelevant (v w : Value) (h : utcRep v = utcRep w) (es : Bkt) (name : Bytes) (a : Bool) :
+    setMarshaled es name v a = setMarshaled es name w a ∧ normalize v = normalize w := by
+  constructor
+  · rw [← setMarshaled_utcRep v, ← setMarshaled_utcRep w, h]
+  · rw [← normalize_utcRep v, ← normalize_utcRep w, h]
+
+theorem container_time_representation_irrelevant (tb : TB) (name : Bytes) (chk : Checker) (a : Bool)
+    (kvs kws : List (Bytes × Value)) (xs ys : List Value)
+    (hm : utcKvs kvs = utcKvs kws) (hl : utcXs xs = utcXs ys) :
+    putMap tb name kvs chk a = putMap tb name kws chk a ∧ putList tb name xs chk = putList tb name ys chk := by
+  constructor
+  · simp only [putMap, putMapRaw]
+    rw [← putEntries_utcRep kvs, ← putEntries_utcRep kws, hm]
+  · have h1 : xs.length = ys.length := by rw [← utcXs_length xs, ← utcXs_length ys, hl]
+    simp only [putList, putListRaw]
+    rw [← putElems_utcRep xs, ← putElems_utcRep ys, hl, h1]
+
+/-- a time inside a list inside a map, in any zone, is accepted on a fresh key and read back as its
+    instant in UTC (instance of `put_succeeds` / `value_roundtrip` below, stated here for times). -/
+theorem time_in_containers_roundtrip (t : GoTime) (ht : t.valid) (es : Bkt) (name k : Bytes)
+    (h1 : name ≠ []) (h2 : name.length ≤ maxKeySize) (h3 : look es name = none)
+    (hk1 : k ≠ []) (hk2 : k.length ≤ maxKeySize) (hk3 : k ≠ listSizeKey) :
+    ∃ es', setMarshaled es name (.map [(k, .list [.time t])]) true = .ok es' ∧
+      getMarshaled es' name = .ok (.map [(k, .list [.time t.utc])]) := by
+  have hw : wellKeyed (.map [(k, .list [.time t])]) = true := by
+    simp [wellKeyed, wellKeyedKvs, wellKeyedXs, hk1, hk2]
+  obtain ⟨es', he⟩ := setMarshaled_ok _ es name hw h1 h2 h3
+  have hs : supported (.map [(k, .list [.time t])]) = true := by
+    simp [supported, supportedKvs, supportedXs, hk3, ht]
+  obtain ⟨n, hn, hr⟩ := setMarshaled_spec _ es name true es' he hs
+  refine ⟨es', he, ?_⟩
+  simp [getMarshaled, hn, look_ins_self, hr, normalize, normKvs, normXs, ins]
 
 /-- the success hypotheses above are satisfiable on every bucket: a plain value is accepted under
     any non-empty key of at most `MaxKeySize` bytes that does not name a child bucket. -/
@@ -694,7 +852,7 @@ example :
   decide
 
 example : wellKeyed (.map [([1], .list [.nil, .map []]), ([2], .str [])]) = true := by decide
-example : supported (.map [([1], .list [.nil, .i32 (-2147483648), .f64 (2 ^ 64 - 1)]), ([2], .time [1])]) = true := by decide
+example : supported (.map [([1], .list [.nil, .i32 (-2147483648), .f64 (2 ^ 64 - 1)]), ([2], .time { sec := 0, nsec := 0, loc := .zone (-90), mono := true })]) = true := by decide
 
 end StorageModel.Properties.C13
 
